@@ -238,6 +238,9 @@ def check_writer(ctx, rr, fi, cfg, open_node, open_call):
         if uniq_any and not uniq:
             rr.bad(ctx.finding(rr.rule, fi, tmp_expr, "the unique component of the temporary name %s comes from a memoised helper: it is computed once per process and inherited by every worker the process forks, so two forked growers of one batch write the same temporary "
                                "(one truncates the other's finished file, which is then renamed into place)" % norm(tmp_expr), construct="tmp-unique-memoised " + norm(tmp_expr)), "R1b unique temporary")
+        elif uniq and not (set(uniq) - {"os.getpid", "threading.get_ident"}) and not {"os.getpid", "threading.get_ident"} <= set(uniq):
+            rr.bad(ctx.finding(rr.rule, fi, tmp_expr, "the only unique component of the temporary name %s that is computed per write is %s: two growers of the same batch inside one process (threads of a pool, a reaper thread and a grower) write the same temporary, "
+                               "one truncates the other's finished file, which is then renamed into place" % (norm(tmp_expr), ", ".join(sorted(set(uniq)))), construct="tmp-unique-per-process-only " + norm(tmp_expr)), "R1b unique temporary")
         elif not uniq:
             rr.bad(ctx.finding(rr.rule, fi, tmp_expr, "temporary name %s has no process-unique component: two growers of the same batch (or of any batch, if the name is constant) write the same temporary" % norm(tmp_expr),
                                construct="tmp-not-unique " + norm(tmp_expr)), "R1b unique temporary")
